@@ -1633,6 +1633,13 @@ def _enc_geometry(kind, place, enc, crs):
     return G.multipolygon(tree, crs)
 
 
+def _snap(coords):
+    """value AND type snapshot of a caller's coordinate list (or array)"""
+    if isinstance(coords, np.ndarray):
+        return ("ndarray", str(coords.dtype), coords.shape, coords.tobytes())
+    return [(type(c).__name__, tuple((type(v).__name__, float(v)) for v in c)) for c in coords]
+
+
 def gen_enc(tier):
     def gen():
         for api in ENC_APIS:
@@ -1660,12 +1667,13 @@ def run_enc(case):
     if api == "densify":
         base = list(shp.coords)
         given = np.asarray(base, dtype="float64") if enc == "ndarray" else [_enc_pt(p, enc) for p in base]
-        snapshot = [tuple(map(float, c)) for c in given]
+        snapshot = _snap(given)
         got = [tuple(map(float, c[:2])) for c in densify(given, res)]
         ref = [tuple(map(float, c)) for c in densify([tuple(c) for c in base], res)]
         call = f"densify(<{base} as {enc}>, {res!r})"
-        if [tuple(map(float, c)) for c in given] != snapshot:
-            fail("densify:input-list-modified", f"{call}: the caller's coordinates changed")
+        if _snap(given) != snapshot:
+            fail("densify:input-list-modified", f"{call}: the caller's coordinates changed (values or types): "
+                 f"{str(_snap(given))[:200]} was {str(snapshot)[:200]}")
         if got != ref:
             fail(f"{tag}:differs-from-float-tuples", f"{call} -> {got[:8]}..., with float tuples {ref[:8]}...")
         judge_long(fail, tag, call, shp, sg.LineString(got), res)
